@@ -1,5 +1,8 @@
 import RtcVerif.Model.C13
 import RtcVerif.Proofs.C13Lemmas
+import RtcVerif.Proofs.C13Spec
+import RtcVerif.Proofs.C13Alias
+import RtcVerif.Proofs.C13Sim
 /-!
 # C13 — aliases are transparent: any alias name addresses the same quantity, signed
 
@@ -65,5 +68,200 @@ theorem C13_unsigned_positive (r : Rel) (a a' : ADict V) (k k' : VName) (v : V)
     subst hset
     simp [ADict.get, csigned, hu, hc, get_set_same]
   · cases hset
+
+
+/-! ## every operation sequence behaves as the abstract map canonical ↦ value -/
+
+/-- **Refinement**: for every relation, every operation sequence (`set, get, del, contains, len,
+    iter/keys, values, items, update, setdefault, get(default), copy`) and every start state with
+    distinct keys, the implementation (association list keyed through `canonical_signed`)
+    produces exactly the outputs of the abstract map `canonical name ↦ value` (`specRun`:
+    operations stated on a function `VName → Option V` with an insertion order), ends in the
+    state that abstracts to the abstract end state, and keeps its keys distinct. -/
+theorem C13_ops_refine_map (r : Rel) (ops : List (Op V)) :
+    ∀ s : St V, WF s.cur → WF s.alt →
+      specRun r (absS s) ops = (absS (run r s ops).1, (run r s ops).2)
+        ∧ WF (run r s ops).1.cur ∧ WF (run r s ops).1.alt := by
+  induction ops with
+  | nil => intro s hc ha; exact ⟨rfl, hc, ha⟩
+  | cons op ops ih =>
+    intro s hc ha
+    obtain ⟨h1, h2, h3⟩ := step_refines r s op hc ha
+    obtain ⟨i1, i2, i3⟩ := ih (step r s op).1 h2 h3
+    simp only [specRun, run, h1, i1]
+    exact ⟨trivial, i2, i3⟩
+
+/-- the same, started from empty dictionaries (what the constructor builds) -/
+theorem C13_ops_refine_map_from_empty (r : Rel) (sv : Bool) (ops : List (Op V)) :
+    specRun r ⟨⟨sv, fun _ => none, []⟩, ⟨sv, fun _ => none, []⟩⟩ ops
+      = (absS (run r ⟨ADict.empty sv, ADict.empty sv⟩ ops).1,
+         (run r ⟨ADict.empty sv, ADict.empty sv⟩ ops).2) := by
+  have h := (C13_ops_refine_map r ops (⟨ADict.empty sv, ADict.empty sv⟩ : St V)
+    List.nodup_nil List.nodup_nil).1
+  exact h
+
+/-! ## any alias name addresses the same quantity -/
+
+/-- **Alias invariance of whole runs**: if every operation of `ops'` is the corresponding
+    operation of `ops` addressed through other names of the same quantities (value arguments
+    replaced by their signed images), then both runs end in the *same* dictionaries and every
+    output of the second run is the output of the first seen with the relative sign (a get
+    through a negated alias returns the negated value / the swapped, negated pair; Booleans,
+    lengths, key lists, errors are identical). -/
+theorem C13_alias_invariant [LawfulNegVal V] (r : Rel) (sv : Bool)
+    {ops ops' : List (Op V)} {ss : List Sign} (h : RunAlias r sv ops ops' ss) :
+    ∀ s : St V, s.cur.signedValues = sv → s.alt.signedValues = sv →
+      run r s ops' = ((run r s ops).1, List.zipWith Out.sgn ss (run r s ops).2) := by
+  induction h with
+  | nil => intro s _ _; rfl
+  | cons hop _ ih =>
+    intro s hc ha
+    subst hc
+    obtain ⟨f1, f2⟩ := step_flags r s _ s.cur.signedValues rfl ha
+    simp only [run, step_alias r s hop, ih _ f1 f2, List.zipWith_cons_cons]
+
+/-- names handed out by `keys()/iter/items()` are canonical, and reading through them returns the
+    stored value itself: for every dictionary reachable from the empty one,
+    `for k, v in d.items(): d[k] == v` (uses the law `canon (canon n).1 = ((canon n).1, +)`). -/
+theorem C13_items_readable (r : Rel) (hr : r.Idem) (sv : Bool) (ops : List (Op V))
+    (c : VName) (v : V)
+    (hm : (c, v) ∈ (run r ⟨ADict.empty sv, ADict.empty sv⟩ ops).1.cur.items) :
+    (run r ⟨ADict.empty sv, ADict.empty sv⟩ ops).1.cur.get r c = .ok v
+      ∧ r c = (c, Sign.pos) := by
+  have hwf := (C13_ops_refine_map r ops (⟨ADict.empty sv, ADict.empty sv⟩ : St V)
+    List.nodup_nil List.nodup_nil).2.1
+  have hcan := (run_invariant r (fun s => Canon r s.cur ∧ Canon r s.alt)
+    (fun s op h => step_canon r hr s op h) ops ⟨ADict.empty sv, ADict.empty sv⟩
+    ⟨by intro c hc; cases hc, by intro c hc; cases hc⟩).1
+  generalize (run r ⟨ADict.empty sv, ADict.empty sv⟩ ops).1.cur = a at *
+  have hk : c ∈ keys a.d := List.mem_map.2 ⟨(c, v), hm, rfl⟩
+  have hcc := hcan c hk
+  refine ⟨?_, hcc⟩
+  have hcs : csigned r a.signedValues c = (c, Sign.pos) := by
+    unfold csigned; split
+    · exact hcc
+    · rw [hcc]
+  simp [ADict.get, hcs, PyDict.get_of_mem a.d hwf c v hm]
+
+/-! ## simulation `get_var` / `set_var` -/
+
+/-- **Simulation**: after `set_var(b, v)`, `get_var(a)` through any name `a` of the same quantity
+    returns `sign a · sign b · v` in physical units, for every (non-zero) nominal and whether or
+    not the entry is a scaled state — provided the nominal dictionary is unsigned (as repaired in
+    7f4289d). -/
+theorem C13_sim_get_set (r : Rel) (s s' : Sim) (a b : VName) (v : Rat)
+    (hu : s.nominals.signedValues = false) (hc : (r a).1 = (r b).1)
+    (hn : s.nominal r b ≠ 0) (hset : s.setVar r b v = some s') :
+    s'.getVar r a = some (sgnMul ((r a).2 * (r b).2) v) := by
+  unfold Sim.setVar at hset
+  cases hib : s.index r b with
+  | none => rw [hib] at hset; cases hset
+  | some p =>
+    obtain ⟨i, sb⟩ := p
+    rw [hib] at hset
+    simp only at hset
+    split at hset
+    · rename_i hlt
+      injection hset with hset
+      obtain ⟨hia, hsb⟩ := Sim.index_alias r s a b i sb hc hib
+      have hnom : s.nominal r a = s.nominal r b := Sim.nominal_alias r s a b hu hc
+      have hia' : s'.index r a = some (i, (r a).2) := by rw [← hset]; exact hia
+      have hnom' : s'.nominal r a = s.nominal r b := by rw [← hset]; exact hnom
+      have hn' : s'.nStates = s.nStates := by rw [← hset]
+      unfold Sim.getVar
+      rw [hia']
+      simp only
+      have hv : s'.vec[i]? = some (if i ≤ s.nStates then sgnMul sb v / s.nominal r b else sgnMul sb v) := by
+        rw [← hset]; simp [List.getElem?_set_self hlt]
+      rw [hv, hn', hnom', hsb]
+      simp only [Option.some.injEq, Sign.hmul_eq]
+      split
+      · rw [← sgnMul_div, sgnMul_mul, sgnMul_mul_right]
+        congr 1
+        field_simp
+      · rw [sgnMul_mul]
+    · cases hset
+
+/-- `set_var` on one quantity leaves every variable stored at another position unchanged -/
+theorem C13_sim_set_other (r : Rel) (s s' : Sim) (a b : VName) (v : Rat) (i j : Nat) (sa sb : Sign)
+    (hia : s.index r a = some (j, sa)) (hib : s.index r b = some (i, sb)) (hij : i ≠ j)
+    (hset : s.setVar r b v = some s') : s'.getVar r a = s.getVar r a := by
+  unfold Sim.setVar at hset
+  rw [hib] at hset
+  simp only at hset
+  split at hset
+  · injection hset with hset
+    have hia' : s'.index r a = some (j, sa) := by rw [← hset]; exact hia
+    unfold Sim.getVar
+    rw [hia', hia]
+    simp only
+    have hv : s'.vec[j]? = s.vec[j]? := by rw [← hset]; simp [List.getElem?_set_ne hij]
+    have hn' : s'.nStates = s.nStates := by rw [← hset]
+    have hnom' : s'.nominal r a = s.nominal r a := by rw [← hset]; rfl
+    rw [hv, hn', hnom']
+  · cases hset
+
+/-- **Magnitudes stay positive**: the nominal looked up through any alias (negated or not) is
+    the stored one — in particular positive when the stored one is. -/
+theorem C13_nominal_through_alias (r : Rel) (s : Sim) (a b : VName)
+    (hu : s.nominals.signedValues = false) (hc : (r a).1 = (r b).1) :
+    s.nominal r a = s.nominal r b := Sim.nominal_alias r s a b hu hc
+
+/-! ## non-vacuity and the history of finding F2 -/
+
+/-- `y = -x`, `z = y`: a relation with a negated alias and a chain -/
+def rXYZ : Rel := fun n =>
+  if n = "y" then ("x", .neg) else if n = "z" then ("x", .neg) else if n = "-x" then ("x", .neg)
+  else (n, .pos)
+
+theorem rXYZ_idem : rXYZ.Idem := by
+  intro n
+  unfold rXYZ
+  split
+  · decide
+  · split
+    · decide
+    · split
+      · decide
+      · rename_i h1 h2 h3
+        simp [h1, h2, h3]
+
+/-- the hypotheses of `C13_get_set` are satisfiable with a negated alias and a bound pair:
+    bounds `(-3, +inf)` stored through `y` read `(-inf, 3)` through `x` and `(-3, +inf)` through `z` -/
+example :
+    let pr : Val := .tup [.num (XVal.fin (-3)), .num XVal.pinf]
+    ∃ a', (ADict.empty true : ADict Val).set rXYZ "y" pr = .ok a'
+      ∧ a'.get rXYZ "x" = .ok (.tup [.num XVal.ninf, .num (XVal.fin 3)])
+      ∧ a'.get rXYZ "z" = .ok pr ∧ a'.keys = ["x"] := by
+  refine ⟨_, rfl, ?_, ?_, ?_⟩ <;> decide
+
+/-- a run and its alias-renamed run (non-vacuity of `RunAlias`) -/
+example : RunAlias rXYZ true
+    [Op.set "x" (Val.atom (.num (XVal.fin 2))), .get "x", .len]
+    [Op.set "y" (signed .neg (Val.atom (.num (XVal.fin 2)))), .get "z", .len]
+    [.pos, .neg, .pos] :=
+  .cons (.set _ ⟨by decide, by decide⟩) (.cons (.get ⟨by decide, by decide⟩) (.cons (.refl _) .nil))
+
+/-- simulation vector with `x` at position 0 (scaled by nominal 10) and `time` at position 1 -/
+def simXY (signedNominals : Bool) : Sim :=
+  { vec := [1/2, 0], nStates := 1,
+    slot := fun n => if n = "x" then some 0 else if n = "time" then some 1 else none,
+    nominals := ⟨signedNominals, [("x", 10)]⟩ }
+
+/-- repaired behaviour on the F2 input: `x = 5`, so `y = -x` reads `-5`; `set_var(y, 3)` makes
+    `x = -3` -/
+example : (simXY false).getVar rXYZ "y" = some (-5)
+    ∧ ((simXY false).setVar rXYZ "y" 3).bind (fun s => s.getVar rXYZ "x") = some (-3) := by
+  constructor <;> decide
+
+/-- **F2, machine-checked**: with a *signed* nominal dictionary (the code before 7f4289d) the
+    nominal seen through the negated alias is `-10`, `get_var('y')` returns `+x` and
+    `set_var('y', 3)` sets `x = 3` — the property fails. -/
+theorem C13_signed_nominals_legacy_wrong :
+    (simXY true).nominal rXYZ "y" = -10
+      ∧ (simXY true).getVar rXYZ "y" = (simXY true).getVar rXYZ "x"
+      ∧ (simXY true).getVar rXYZ "x" = some 5
+      ∧ ((simXY true).setVar rXYZ "y" 3).bind (fun s => s.getVar rXYZ "x") = some 3 := by
+  refine ⟨?_, ?_, ?_, ?_⟩ <;> decide
 
 end RtcVerif.C13
